@@ -395,9 +395,9 @@ theorem f64_f128_agree_from_int (m v : Int) (hm : Mult m) (k : Kind) (hk : k ∈
   rw [F64.fromInt_eq hv hp, F128.fromInt_eq hk hm hkv]; exact ⟨rfl, rfl⟩
 
 /-- integer `As`: the same answer for EVERY common raw value and every target kind — also when the integer part does
-    not fit the target kind and Go's conversion wraps (no `fitsKind` hypothesis).  The wrapping part is a statement about
-    the MODEL: `as` lines whose integer part does not fit the target kind are outside the property, run in the stream
-    `fxwrap` (model drift only, never a violation) and are not in the twin comparison -/
+    not fit the target kind and Go's conversion wraps (no `fitsKind` hypothesis).  The wrapping part is carried by the
+    correspondence run as well: every integer-target `as` line is judged in area `fx` and is in the twin comparison (Go's
+    integer conversion is truncation to the target width, fully defined) -/
 theorem f64_f128_agree_as_int (m a : Int) (hm : Mult m) (k : Kind) (ha : fits64 a) :
     F64.asInt k m a = F128.asInt k m a := by
   unfold F64.asInt F128.asInt F64.quo
